@@ -23,6 +23,7 @@ import re
 import shutil
 import subprocess
 import sys
+import threading
 import time
 
 ROOT = os.path.dirname(os.path.abspath(__file__))
@@ -185,7 +186,8 @@ def _producers():
         P("claim_guard", "{m}.claim()", holds=True, needs=["inherent"]),
         P("claim_alloc", "{m}.claim().alloc(1u32)", needs=["inherent"]),
         P("claim_alloc_str_ref", "{m}.claim().alloc_str(\"a\").into_ref()", needs=["inherent"]),
-        P("aligned_alloc", "{m}.aligned::<8, _>(|s| s.alloc(1u32))", mut=True, needs=["inherent"]),
+        # (BumpScope::aligned hands out the scope's own lifetime; Bump::aligned's closure is higher-ranked, hence 'scope')
+        P("aligned_alloc", "{m}.aligned::<8, _>(|s| s.alloc(1u32))", mut=True, needs=["inherent", "scope"]),
         P("scope_guard", "{m}.scope_guard()", mut=True, holds=True, needs=["inherent"]),
         P("by_value", "{m}.by_value()", mut=True, holds=True, needs=["scope"]),
         P("by_value_alloc", "{m}.by_value().alloc(1u32)", mut=True, holds=True, needs=["scope"]),
@@ -456,9 +458,10 @@ def closure_routes(h, p, tier):
         out.append(("r2d", _closure_body(h, p.mut, ["let (tx, rx) = std::sync::mpsc::channel();"], [px, "tx.send(x).ok();"], post=["sink(rx.try_recv());"]),
                     _closure_body(h, p.mut, [], ["let (tx, rx) = std::sync::mpsc::channel();", px, "tx.send(x).ok();", "sink(rx.try_recv());"])))
     uses = [("r13a", ["let y = %s.alloc(2u32);" % o, "sink(y);"])]
-    if "reset" in h.owner_caps:
-        uses.append(("r13b", ["%s.reset();" % o]))
-    uses.append(("r13c", ["let y = %s.stats();" % o, "sink(y);"]))
+    if tier == THOROUGH or p.name in R13_SUBSET:
+        if "reset" in h.owner_caps:
+            uses.append(("r13b", ["%s.reset();" % o]))
+        uses.append(("r13c", ["let y = %s.stats();" % o, "sink(y);"]))
     for r, use in uses:
         out.append((r, _closure_body(h, p.mut, [], [px] + use + ["sink(x);"]),
                     _closure_body(h, p.mut, [], [px, "sink(x);"], after_inner=use)))
@@ -478,13 +481,14 @@ def guard_routes(h, p, tier):
 
     lin("r3", ["drop(guard);"])
     out.append(("r3b", head + ["let escaped;", "{"] + gs + [px, "escaped = x;", "}", "sink(escaped);"] + tail,
-                head + ["let escaped;", "{"] + gs + [px, "escaped = x;", "sink(escaped);", "}"] + tail))
+                head + ["{"] + gs + ["let escaped;", px, "escaped = x;", "sink(escaped);", "}"] + tail))
     lin("r4", ["let y = guard.scope().alloc(2u32);", "sink(y);"])
     lin("r5", ["guard.reset();"])
     uses = [("r13a", ["let y = %s.alloc(2u32);" % o, "sink(y);"])]
-    if "reset" in h.owner_caps:
-        uses.append(("r13b", ["%s.reset();" % o]))
-    uses.append(("r13c", ["let y = %s.stats();" % o, "sink(y);"]))
+    if tier == THOROUGH or p.name in R13_SUBSET:
+        if "reset" in h.owner_caps:
+            uses.append(("r13b", ["%s.reset();" % o]))
+        uses.append(("r13c", ["let y = %s.stats();" % o, "sink(y);"]))
     for r, use in uses:
         out.append((r, head + gs + [px] + use + ["sink(x);", "drop(guard);"] + tail,
                     head + gs + [px, "sink(x);", "drop(guard);"] + use + tail))
@@ -524,6 +528,11 @@ def lease_routes(h, p, tier):
     return out
 
 
+# r13b / r13c do not depend on what `x` is (the conflict is between the outer allocator and the scope itself), so the
+# quick tier crosses them with a representative producer subset only; the thorough tier takes all producers.
+R13_SUBSET = {"alloc", "alloc_into_ref", "alloc_iter_mut", "bumpvec", "bumpvec_into_slice", "mutbumpvec_into_slice", "stats", "claim_guard", "by_value"}
+
+
 FAMILY = {"closure": closure_routes, "guard": guard_routes, "bump": bump_routes, "lease": lease_routes}
 
 
@@ -556,3 +565,670 @@ def borrow_cases(tier):
                 kind = "borrowck" if fail is not None else "control"
                 cases.append(Case(kind, h.name, r, p.name, fail, ctrl, desc, tier))
     return cases
+
+
+# ----------------------------------------------------------------------------------------------
+# r12: sending to another thread (decided by the trait solver: E0277)
+# ----------------------------------------------------------------------------------------------
+ALLOCS = [("rc", "RcAlloc"), ("ptr", "PtrAlloc")]
+
+
+def trait_cases(tier):
+    """Every case exists for both non-Send base allocators.  `twin` says what the control is:
+    'global'  - the identical program with the Send + Sync base allocator Global must compile
+    'local'   - the value is not Send/Sync for *any* base allocator (Bump is !Sync, BumpScope is !Send), so the
+                identical program is also generated as must-fail for Global, and the control runs the same closure
+                on the current thread instead of spawning it."""
+    bump = "let mut bump: Bump<{A}> = Bump::new_in(<{A}>::default());"
+    pool = "let mut pool: BumpPool<{A}> = BumpPool::new_in(<{A}>::default());"
+    T = [
+        ("spawn_move_bump", "global", [bump], "std::thread::spawn(move || {", ["sink(bump);"], "});",
+         "a Bump whose base allocator is not Send is moved into std::thread::spawn"),
+        ("scope_move_bump", "global", [bump], "std::thread::scope(|s| { s.spawn(move || {", ["sink(bump);"], "}); });",
+         "a Bump whose base allocator is not Send is moved into a scoped thread"),
+        ("spawn_move_bump_alloc", "global", [bump], "std::thread::spawn(move || {", ["let x = bump.alloc(1u32);", "sink(x);"], "});",
+         "a Bump whose base allocator is not Send is moved into a thread and allocated from there"),
+        ("scope_ref_bump", "local", [bump], "std::thread::scope(|s| { s.spawn(|| {", ["let x = bump.alloc(1u32);", "sink(x);"], "}); });",
+         "a &Bump is used from a scoped thread (Bump is not Sync)"),
+        ("scope_ref_bump_stats", "local", [bump], "std::thread::scope(|s| { s.spawn(|| {", ["sink(bump.stats().allocated());"], "}); });",
+         "a &Bump is read from a scoped thread (Bump is not Sync)"),
+        ("arc_bump", "local", [bump, "let shared = Arc::new(bump);"], "std::thread::spawn(move || {", ["sink(shared.alloc(1u32).into_ref().clone());"], "});",
+         "an Arc<Bump> is sent to another thread (Bump is not Sync)"),
+        ("scope_bumpvec", "local", [bump, "let mut v = BumpVec::new_in(&bump);", "v.push(1u32);"], "std::thread::scope(|s| { s.spawn(move || {", ["sink(v);"], "}); });",
+         "a BumpVec holding &Bump is moved into a scoped thread"),
+        ("scope_bumpstring", "local", [bump, "let mut v = BumpString::new_in(&bump);", "v.push('a');"], "std::thread::scope(|s| { s.spawn(move || {", ["sink(v);"], "}); });",
+         "a BumpString holding &Bump is moved into a scoped thread"),
+        ("scope_mut_scope", "local", [bump], "bump.scoped(|scope| { std::thread::scope(|s| { s.spawn(|| {", ["let x = scope.alloc(1u32);", "sink(x);"], "}); }); });",
+         "the &mut BumpScope of a scoped closure is used from a scoped thread"),
+        ("scope_scope_guard", "local", [bump, "let mut guard = bump.scope_guard();"], "std::thread::scope(|s| { s.spawn(move || {", ["sink(guard);"], "}); });",
+         "a BumpScopeGuard is moved into a scoped thread"),
+        ("scope_stats", "local", [bump, "let stats = bump.stats();"], "std::thread::scope(|s| { s.spawn(move || {", ["sink(stats.allocated());"], "}); });",
+         "a Stats value is moved into a scoped thread"),
+        ("scope_claim_guard", "local", [bump, "let claim = bump.claim();"], "std::thread::scope(|s| { s.spawn(move || {", ["sink(claim);"], "}); });",
+         "a BumpClaimGuard is moved into a scoped thread"),
+        ("scope_mutbumpvec", "global", [bump, "let mut v = MutBumpVec::new_in(&mut bump);", "v.push(1u32);"], "std::thread::scope(|s| { s.spawn(move || {", ["sink(v);"], "}); });",
+         "a MutBumpVec holding &mut Bump is moved into a scoped thread"),
+        ("spawn_move_pool", "global", [pool], "std::thread::spawn(move || {", ["sink(pool);"], "});",
+         "a BumpPool whose base allocator is not Send is moved into std::thread::spawn"),
+        ("scope_ref_pool", "global", [pool], "std::thread::scope(|s| { s.spawn(|| {", ["let guard = pool.get();", "sink(guard.alloc(1u32).into_ref().clone());"], "}); });",
+         "a &BumpPool whose base allocator is not Send/Sync is used from a scoped thread"),
+        ("scope_pool_guard", "global", [pool, "let guard = pool.get();"], "std::thread::scope(|s| { s.spawn(move || {", ["sink(guard.alloc(1u32).into_ref().clone());"], "}); });",
+         "a BumpPoolGuard of a pool whose base allocator is not Send is moved into a scoped thread"),
+        ("arc_pool", "global", [pool, "let shared = Arc::new(pool);"], "std::thread::spawn(move || {", ["let guard = shared.get();", "sink(guard.alloc(1u32).into_ref().clone());"], "});",
+         "an Arc<BumpPool> whose base allocator is not Send/Sync is sent to another thread"),
+    ]
+    cases = []
+    for name, twin, setup, opn, body, close, desc in T:
+        allocs = list(ALLOCS) + ([("global", "Global")] if twin == "local" else [])
+        for an, A in allocs:
+            fail = [l.format(A=A) for l in setup] + [opn] + body + [close]
+            if twin == "global":
+                ctrl = [l.format(A="Global") for l in setup] + [opn] + body + [close]
+            else:
+                mv = "move " if "move ||" in opn else ""
+                pre = opn.split("std::thread::scope")[0] if "std::thread::scope" in opn else ""
+                post = close.split("}); });", 1)[1] if "std::thread::scope" in opn else ""
+                ctrl = [l.format(A=A) for l in setup] + [pre + "(%s|| {" % mv] + body + ["})();" + post]
+            cases.append(Case("trait", "thread", "r12", "%s.%s" % (name, an), fail, ctrl,
+                              "%s (base allocator %s)" % (desc, A), tier))
+    # control only: BumpBox<T: Send> is Send by design (dropping it never touches the allocator)
+    for an, A in ALLOCS:
+        body = ["let bump: Bump<%s> = Bump::new_in(<%s>::default());" % (A, A), "let x = bump.alloc(1u32);",
+                "std::thread::scope(|s| { s.spawn(move || {", "sink(x);", "}); });"]
+        cases.append(Case("control", "thread", "r12", "scope_bumpbox.%s" % an, None, body,
+                          "CONTROL ONLY: a BumpBox<u32> may be moved into a scoped thread whatever the base allocator is", tier))
+    return cases
+
+
+# ----------------------------------------------------------------------------------------------
+# settings conversions (decided by const evaluation during monomorphisation: E0080)
+# ----------------------------------------------------------------------------------------------
+def S(align=1, up=True, ga=True, cl=True):
+    return (align, up, ga, cl)
+
+
+def sty(s):
+    return "BumpSettings<%d, %s, %s, %s>" % (s[0], str(s[1]).lower(), str(s[2]).lower(), str(s[3]).lower())
+
+
+def conv_must_fail(method, i, o):
+    """The documented compile-time rules (doc comments of the six methods, src/bump.rs and src/bump_scope.rs)."""
+    ia, iu, ig, ic = i
+    oa, ou, og, oc = o
+    if iu != ou:
+        return "UP changed"
+    kind = method.split(".")[1]
+    if kind == "borrow":
+        if ia != oa:
+            return "MIN_ALIGN changed on a shared borrow"
+        if ic != oc:
+            return "CLAIMABLE changed on a shared borrow"
+        if og and not ig:
+            return "GUARANTEED_ALLOCATED raised on a shared borrow"
+    elif kind == "borrow_mut":
+        if oa < ia:
+            return "MIN_ALIGN lowered on a mutable borrow"
+        if ig != og:
+            return "GUARANTEED_ALLOCATED changed on a mutable borrow"
+        if ic != oc:
+            return "CLAIMABLE changed on a mutable borrow"
+    elif method == "scope.into":
+        if oa < ia:
+            return "MIN_ALIGN lowered by BumpScope::with_settings"
+    return None
+
+
+CONV_METHODS = {
+    "bump.borrow": ("fn convert(b: &Bump<Global, In>) -> &Bump<Global, Out> { b.borrow_with_settings() }",
+                    ["let input = Bump::<Global, In>::new();", "let out = convert(&input);", "USE"]),
+    "bump.borrow_mut": ("fn convert(b: &mut Bump<Global, In>) -> &mut Bump<Global, Out> { b.borrow_mut_with_settings() }",
+                        ["let mut input = Bump::<Global, In>::new();", "let out = convert(&mut input);", "USE"]),
+    "bump.into": ("fn convert(b: Bump<Global, In>) -> Bump<Global, Out> { b.with_settings() }",
+                  ["let input = Bump::<Global, In>::new();", "let out = convert(input);", "USE"]),
+    "scope.borrow": ("fn convert<'a, 'b>(b: &'b BumpScope<'a, Global, In>) -> &'b BumpScope<'a, Global, Out> { b.borrow_with_settings() }",
+                     ["let input = Bump::<Global, In>::new();", "let out = convert(input.as_scope());", "USE"]),
+    "scope.borrow_mut": ("fn convert<'a, 'b>(b: &'b mut BumpScope<'a, Global, In>) -> &'b mut BumpScope<'a, Global, Out> { b.borrow_mut_with_settings() }",
+                         ["let mut input = Bump::<Global, In>::new();", "let out = convert(input.as_mut_scope());", "USE"]),
+    "scope.into": ("fn convert<'a>(b: BumpScope<'a, Global, In>) -> BumpScope<'a, Global, Out> { b.with_settings() }",
+                   ["let mut input = Bump::<Global, In>::new();", "input.scoped(|s| {", "let out = convert(s.by_value());", "USE", "});"]),
+}
+USE = "let t = out.alloc_str(\"t\"); std::hint::black_box(&t);"
+
+CONST_PRELUDE = """#![allow(unused)]
+#![deny(unsafe_code)]
+use bump_scope::{Bump, BumpPool, BumpScope, alloc::Global, settings::BumpSettings};
+use bump_scope::traits::*;
+"""
+
+
+def conv_program(method, i, o):
+    fn, body = CONV_METHODS[method]
+    lines = ["type In = %s;" % sty(i), "type Out = %s;" % sty(o), fn]
+    lines += [USE if l == "USE" else l for l in body]
+    return lines  # body of `pub fn case() { .. }` (items first, then statements)
+
+
+def claim_program(where, cl):
+    s = sty(S(cl=cl))
+    setup = {"bump": ["let mut bump = Bump::<Global, %s>::new();" % s, "let c = bump.claim();"],
+             "as_scope": ["let mut bump = Bump::<Global, %s>::new();" % s, "let c = bump.as_scope().claim();"],
+             "scoped": ["let mut bump = Bump::<Global, %s>::new();" % s, "bump.scoped(|scope| {", "let c = scope.claim();"],
+             "pool": ["let pool = BumpPool::<Global, %s>::new();" % s, "let guard = pool.get();", "let c = guard.claim();"],
+             "trait": ["fn generic<'a, B: BumpAllocatorScope<'a>>(b: &B) { let c = b.claim(); std::hint::black_box(&*c); }",
+                       "let mut bump = Bump::<Global, %s>::new();" % s, "let c = bump.as_scope();", "generic(c);"]}[where]
+    tail = ["let t = c.alloc_str(\"t\"); std::hint::black_box(&t);"] if where != "trait" else []
+    if where == "scoped":
+        tail = tail + ["});"]
+    return setup + tail
+
+
+def const_cases(tier):
+    """RULE: every one of the six conversion methods x every single-dimension change of
+    (MIN_ALIGN up/down, UP both ways, GUARANTEED_ALLOCATED both ways, CLAIMABLE both ways) and the identity; the
+    thorough tier takes the full product In x Out over {MIN_ALIGN 1,8} x UP x GA x CLAIMABLE.  Whether a conversion
+    must be rejected is taken from the *documented* rules (conv_must_fail).  Must-fail conversions have the identity
+    conversion through the same method as control twin; permitted conversions are control-only programs.
+    Plus claim() on a CLAIMABLE=false allocator (twin: CLAIMABLE=true)."""
+    base = S()
+    pairs = []
+    if tier == QUICK:
+        for name, i, o in [("identity", base, base), ("align_up", S(1), S(2)), ("align_down", S(2), S(1)),
+                           ("align_up16", S(1), S(16)), ("align_down16", S(16), S(8)),
+                           ("up_to_false", S(up=True), S(up=False)), ("up_to_true", S(up=False), S(up=True)),
+                           ("ga_decrease", S(ga=True), S(ga=False)), ("ga_increase", S(ga=False), S(ga=True)),
+                           ("claimable_decrease", S(cl=True), S(cl=False)), ("claimable_increase", S(cl=False), S(cl=True)),
+                           ("identity_down_unalloc", S(8, False, False, False), S(8, False, False, False)),
+                           ("align_down_and_ga_decrease", S(2, True, True), S(1, True, False)),
+                           ("align_up_and_up_flip", S(1, True), S(2, False))]:
+            pairs.append((name, i, o))
+    else:
+        dom = [S(a, u, g, c) for a in (1, 8) for u in (True, False) for g in (True, False) for c in (True, False)]
+        for i in dom:
+            for o in dom:
+                pairs.append(("%d%d%d%d_to_%d%d%d%d" % (i + o), i, o))
+        pairs += [("align_up16", S(1), S(16)), ("align_down16", S(16), S(8)), ("align_up", S(1), S(2)), ("align_down", S(2), S(1))]
+    cases = []
+    for method in CONV_METHODS:
+        for name, i, o in pairs:
+            why = conv_must_fail(method, i, o)
+            prog = conv_program(method, i, o)
+            if why:
+                c = Case("const", method, "conv", name, prog, conv_program(method, i, i),
+                         "%s from %s to %s must not compile: %s" % (method, sty(i), sty(o), why), tier)
+            else:
+                c = Case("constctl", method, "conv", name, None, prog,
+                         "CONTROL ONLY: %s from %s to %s is a permitted conversion" % (method, sty(i), sty(o)), tier)
+            cases.append(c)
+    for where in ("bump", "as_scope", "scoped", "pool", "trait"):
+        cases.append(Case("const", "claim", "claim", where, claim_program(where, False), claim_program(where, True),
+                          "claim() (%s) on a CLAIMABLE = false allocator must not compile" % where, tier))
+    return cases
+
+
+def all_cases(tier):
+    cs = borrow_cases(tier) + trait_cases(tier) + const_cases(tier)
+    ids = [c.cid for c in cs]
+    assert len(ids) == len(set(ids)), "duplicate case ids"
+    return cs
+
+
+# ==============================================================================================
+# rendering
+# ==============================================================================================
+CARGO_TOML = """[package]
+name = "%s"
+version = "0.0.0"
+edition = "2024"
+
+[dependencies]
+bump-scope = { path = "%s" }
+
+[workspace]
+"""
+PER_MODULE = 250
+
+
+def write_file(path, text):
+    os.makedirs(os.path.dirname(path), exist_ok=True)
+    with open(path, "w") as f:
+        f.write(text)
+
+
+def write_cargo_files(cdir, name):
+    write_file(os.path.join(cdir, "Cargo.toml"), CARGO_TOML % (name, REPO))
+    lock = os.path.join(REPO, "Cargo.lock")
+    if os.path.exists(lock):
+        shutil.copy(lock, os.path.join(cdir, "Cargo.lock"))
+
+
+def fn_text(name, case, lines, indent="    "):
+    out = ["// %s: %s" % (case.cid, case.desc), "pub fn %s() {" % name]
+    depth = 1
+    for l in lines:
+        s = l.strip()
+        d = depth - (1 if s.startswith("}") else 0)
+        out.append(indent * max(d, 1) + s)
+        depth += s.count("{") - s.count("}")
+    out.append("}")
+    return out
+
+
+def render_lib_crate(name, items):
+    """items: list of (case, 'fail'|'ctrl').  Writes work/<name>/ and returns index: file -> [(start, end, case)]"""
+    cdir = os.path.join(WORK, name)
+    shutil.rmtree(cdir, ignore_errors=True)
+    write_cargo_files(cdir, name)
+    index = {}
+    mods = []
+    for mi in range(0, len(items), PER_MODULE):
+        mod = "m%03d" % (mi // PER_MODULE)
+        mods.append(mod)
+        rel = "src/%s.rs" % mod
+        lines = ["use super::*;", ""]
+        index[rel] = []
+        for k, (case, which) in enumerate(items[mi:mi + PER_MODULE]):
+            body = case.fail if which == "fail" else case.ctrl
+            ft = fn_text("case_%05d" % (mi + k), case, body)
+            start = len(lines) + 1
+            lines += ft
+            end = len(lines)
+            lines.append("")
+            index[rel].append((start, end, case))
+            src = "\n".join(ft)
+            if which == "fail":
+                case.fail_src, case.fail_loc = src, "%s/%s:%d" % (name, rel, start)
+            else:
+                case.ctrl_src, case.ctrl_loc = src, "%s/%s:%d" % (name, rel, start)
+        write_file(os.path.join(cdir, rel), "\n".join(lines) + "\n")
+    write_file(os.path.join(cdir, "src/lib.rs"), LIB_PRELUDE + "\n" + "".join("mod %s;\n" % m for m in mods))
+    # The crate is ONE cargo-checkable lib (src/lib.rs); to use all cores the driver compiles it as one rustc
+    # invocation per module through these shard roots (same prelude, one `mod`), which report the same spans.
+    for m in mods:
+        write_file(os.path.join(cdir, "src/shard_%s.rs" % m), LIB_PRELUDE + '\n#[path = "%s.rs"]\nmod %s;\n' % (m, m))
+    return cdir, index, ["src/shard_%s.rs" % m for m in mods]
+
+
+def const_program_text(fns):
+    """fns: list of (fn name, case, lines) -> a bin crate whose main reaches every fn (so that it is monomorphised)"""
+    out = [CONST_PRELUDE]
+    for name, case, lines in fns:
+        out += fn_text(name, case, lines)
+        out.append("")
+    out.append("fn main() {")
+    out += ["    %s();" % name for name, _c, _l in fns]
+    out.append("}")
+    return "\n".join(out) + "\n"
+
+
+def standalone_text(case, which):
+    lines = case.fail if which == "fail" else case.ctrl
+    if case.kind in ("const", "constctl"):
+        return const_program_text([("case", case, lines)])
+    return LIB_PRELUDE + "\n" + "\n".join(fn_text("case", case, lines)) + "\n"
+
+
+# ==============================================================================================
+# driver
+# ==============================================================================================
+class Rustc:
+    def __init__(self):
+        self.rlib = None
+        self.deps = None
+        self.invocations = 0
+        self.lock = threading.Lock()
+        self.env = dict(os.environ, CARGO_TARGET_DIR=TARGET)
+
+    def ensure_dep(self):
+        """build bump-scope ONCE (cargo, offline, own target dir); every program is then decided by one direct
+        rustc invocation against that rlib"""
+        ddir = os.path.join(WORK, "dep")
+        write_cargo_files(ddir, "escape-dep")
+        write_file(os.path.join(ddir, "src/lib.rs"), "pub fn touch() { let b: bump_scope::Bump = bump_scope::Bump::new(); std::hint::black_box(&b); }\n")
+        p = subprocess.run(["cargo", "build", "--offline", "--message-format=json"], cwd=ddir, env=self.env,
+                           stdout=subprocess.PIPE, stderr=subprocess.PIPE, text=True)
+        rlib = None
+        for l in p.stdout.splitlines():
+            try:
+                m = json.loads(l)
+            except ValueError:
+                continue
+            if m.get("reason") == "compiler-artifact" and m.get("target", {}).get("name") == "bump_scope":
+                for f in m.get("filenames", []):
+                    if f.endswith(".rlib"):
+                        rlib = f
+        if p.returncode != 0 or not rlib:
+            raise Machinery("building bump-scope from %s failed (rc=%d):\n%s" % (REPO, p.returncode, p.stderr[-3000:]))
+        self.rlib, self.deps = rlib, os.path.dirname(rlib)
+
+    def run(self, cwd, src, crate_type, emit, name):
+        out = os.path.join(WORK, "out", name)
+        os.makedirs(out, exist_ok=True)
+        ext = {"metadata": "rmeta", "obj": "o"}[emit]
+        cmd = ["rustc", "--edition", "2024", "--crate-type", crate_type, "--crate-name", re.sub(r"\W", "_", name),
+               "--emit=" + emit, "-o", os.path.join(out, "out." + ext), "--error-format=json", "-C", "codegen-units=1",
+               "-L", "dependency=" + self.deps, "--extern", "bump_scope=" + self.rlib, src]
+        with self.lock:
+            self.invocations += 1
+        p = subprocess.run(cmd, cwd=cwd, stdout=subprocess.PIPE, stderr=subprocess.PIPE, text=True)
+        errs = []
+        for l in p.stderr.splitlines():
+            try:
+                m = json.loads(l)
+            except ValueError:
+                if l.strip():
+                    errs.append({"code": "", "msg": "non-JSON compiler output: " + l[:300], "file": None, "line": 0, "rendered": l})
+                continue
+            if m.get("level") not in ("error", "error: internal compiler error"):
+                continue
+            if not m.get("spans") and m["message"].startswith("aborting due to"):
+                continue
+            f, line = primary_location(m)
+            errs.append({"code": (m.get("code") or {}).get("code") or "", "msg": m["message"], "file": f, "line": line,
+                         "rendered": m.get("rendered") or m["message"]})
+        if p.returncode != 0 and not errs:
+            errs.append({"code": "", "msg": "rustc failed with rc=%d without a diagnostic" % p.returncode, "file": None, "line": 0,
+                         "rendered": p.stderr[-2000:]})
+        shutil.rmtree(out, ignore_errors=True)
+        return errs
+
+
+def primary_location(m):
+    for sp in m.get("spans", []):
+        if not sp.get("is_primary"):
+            continue
+        while sp is not None and not sp["file_name"].startswith("src/") and sp.get("expansion"):
+            sp = sp["expansion"]["span"]
+        if sp is not None:
+            return sp["file_name"], sp["line_start"]
+    return None, 0
+
+
+def locate(index, e):
+    for start, end, case in index.get(e["file"], []):
+        if start <= e["line"] <= end:
+            return case
+    return None
+
+
+def first_line(e):
+    return ("[%s] " % e["code"] if e["code"] else "") + e["msg"].splitlines()[0][:200]
+
+
+class Report:
+    def __init__(self):
+        self.viols = []
+        self.machinery = []
+        self.rejected_ok = 0
+
+    def viol(self, case, crate, msg):
+        self.viols.append({"prop": PROP, "cfg": crate, "params": case.params, "history": "%s: %s" % (case.cid, case.desc),
+                           "msg": msg, "replay_args": ["--case", case.cid]})
+
+
+def compile_lib_crate(rc, ex, name, items):
+    """renders the crate and submits one rustc invocation per module; returns (index, futures)"""
+    cdir, index, roots = render_lib_crate(name, items)
+    return index, [ex.submit(rc.run, cdir, root, "lib", "metadata", "%s_%s" % (name, os.path.basename(root)[:-3])) for root in roots]
+
+
+def decide_fail_crate(rep, name, cases, index, futs, in_class, what):
+    owned = {}
+    for f in futs:
+        for e in f.result():
+            c = locate(index, e)
+            if c is None or not in_class(e):
+                rep.machinery.append("%s: unexpected error %s at %s:%s%s\n%s" % (
+                    name, first_line(e), e["file"], e["line"], " (case %s)" % c.cid if c else "", e["rendered"][:1500]))
+                continue
+            owned.setdefault(c.cid, []).append(e)
+    for c in cases:
+        if c.cid in owned:
+            rep.rejected_ok += 1
+            c.verdict = first_line(owned[c.cid][0])
+        else:
+            rep.viol(c, name, "compiled without a %s error although the value escapes: %s" % (what, c.desc))
+
+
+def decide_controls(rep, name, index, futs):
+    seen = set()
+    for f in futs:
+        for e in f.result():
+            c = locate(index, e)
+            if c is None or not is_rejection(e):
+                rep.machinery.append("%s: control does not compile for a boring reason: %s at %s:%s%s\n%s" % (
+                    name, first_line(e), e["file"], e["line"], " (case %s)" % c.cid if c else "", e["rendered"][:1500]))
+            elif c.cid not in seen:
+                seen.add(c.cid)
+                rep.viol(c, name, "control rejected: the non-escaping twin does not compile: " + first_line(e))
+
+
+def run_const(rc, name, text):
+    cdir = os.path.join(WORK, "const", name)
+    write_file(os.path.join(cdir, "main.rs"), text)
+    return rc.run(cdir, "main.rs", "bin", "obj", "const_" + name)
+
+
+def submit_const(rc, ex, fails, ctrls):
+    """controls: all permitted conversions / twins in ONE really built bin (only if that fails, one by one);
+    must-fail conversions: one rustc --emit=obj each, because the first const-evaluation failure ends the build
+    and its span points into the library, not into the case"""
+    uniq = {}
+    for c in ctrls:
+        uniq.setdefault("\n".join(c.ctrl), []).append(c)
+    groups = list(uniq.values())
+    for i, g in enumerate(groups):
+        for c in g:
+            c.ctrl_src = "\n".join(fn_text("case_%05d" % i, g[0], g[0].ctrl))
+            c.ctrl_loc = "const/controls/main.rs"
+    batch = None
+    if groups:
+        batch = ex.submit(run_const, rc, "controls", const_program_text([("case_%05d" % i, g[0], g[0].ctrl) for i, g in enumerate(groups)]))
+    ffuts = []
+    for i, c in enumerate(fails):
+        c.fail_src, c.fail_loc = "\n".join(fn_text("case", c, c.fail)), "const/fail_%05d/main.rs" % i
+        ffuts.append((c, ex.submit(run_const, rc, "fail_%05d" % i, const_program_text([("case", c, c.fail)]))))
+    return groups, batch, ffuts
+
+
+def decide_const(rc, ex, rep, groups, batch, ffuts):
+    if batch is not None and batch.result():
+        futs = [(g, ex.submit(run_const, rc, "control_%05d" % i, const_program_text([("case", g[0], g[0].ctrl)]))) for i, g in enumerate(groups)]
+        for g, f in futs:
+            ee = f.result()
+            if not ee:
+                continue
+            if any(is_const_err(e) for e in ee):
+                for c in g:
+                    rep.viol(c, "const_controls", "control rejected: a permitted program fails const evaluation: " +
+                             first_line([e for e in ee if is_const_err(e)][0]))
+            else:
+                rep.machinery.append("const control %s does not compile for a boring reason: %s\n%s" % (
+                    g[0].cid, first_line(ee[0]), ee[0]["rendered"][:1500]))
+    for c, f in ffuts:
+        ee = f.result()
+        good = [e for e in ee if is_const_err(e)]
+        bad = [e for e in ee if not is_const_err(e)]
+        if bad:
+            rep.machinery.append("const_fail %s: unexpected error %s\n%s" % (c.cid, first_line(bad[0]), bad[0]["rendered"][:1500]))
+        elif good:
+            rep.rejected_ok += 1
+            c.verdict = first_line(good[0])
+        else:
+            rep.viol(c, "const_fail", "compiled (and was code-generated) without a const-evaluation error: " + c.desc)
+
+
+def pick_samples(cases):
+    want = ["B/scoped/r1/alloc", "B/guard/r4/bumpvec_into_slice", "B/bump/r6/alloc_str", "B/pool/r10a/alloc_iter_mut",
+            "T/thread/r12/spawn_move_bump.rc", "S/bump.borrow/conv/align_down"]
+    by = {c.cid: c for c in cases}
+    return [by[w].fail_src for w in want if w in by and by[w].fail_src]
+
+
+def error_histogram(cases):
+    h = {}
+    for c in cases:
+        v = getattr(c, "verdict", None)
+        if v:
+            m = re.match(r"\[(E\d+)\]", v)
+            k = m.group(1) if m else v[:40]
+            h[k] = h.get(k, 0) + 1
+    return dict(sorted(h.items()))
+
+
+def cmd_check(args):
+    t0 = time.time()
+    tier = args.tier
+    jobs = args.jobs or (os.cpu_count() or 4)
+    rc, rep = Rustc(), Report()
+    cases = all_cases(tier)
+    rc.ensure_dep()
+    bfail = [c for c in cases if c.kind == "borrowck"]
+    tfail = [c for c in cases if c.kind == "trait"]
+    cfail = [c for c in cases if c.kind == "const"]
+    lib_ctrl = [c for c in cases if c.kind in ("borrowck", "trait", "control")]
+    const_ctrl = [c for c in cases if c.kind in ("const", "constctl")]
+    shutil.rmtree(os.path.join(WORK, "const"), ignore_errors=True)
+    with concurrent.futures.ThreadPoolExecutor(jobs) as ex:
+        # biggest jobs first
+        ci, cf = compile_lib_crate(rc, ex, "controls", [(c, "ctrl") for c in lib_ctrl])
+        bi, bf = compile_lib_crate(rc, ex, "borrowck_fail", [(c, "fail") for c in bfail])
+        groups, batch, ffuts = submit_const(rc, ex, cfail, const_ctrl)
+        ti, tf = compile_lib_crate(rc, ex, "trait_fail", [(c, "fail") for c in tfail])
+        decide_fail_crate(rep, "borrowck_fail", bfail, bi, bf, is_borrow_err, "borrow/lifetime")
+        decide_fail_crate(rep, "trait_fail", tfail, ti, tf, is_trait_err, "Send/Sync (E0277)")
+        decide_controls(rep, "controls", ci, cf)
+        decide_const(rc, ex, rep, groups, batch, ffuts)
+    if rep.machinery:
+        for m in rep.machinery[:40]:
+            print("MACHINERY " + m, file=sys.stderr)
+        print("MACHINERY %d problem(s) in the corpus itself; no verdict" % len(rep.machinery), file=sys.stderr)
+        return 2
+    for v in rep.viols:
+        print("VIOL " + json.dumps(v))
+    n_fail = len(bfail) + len(tfail) + len(cfail)
+    n_ctrl = len(lib_ctrl) + len(const_ctrl)
+    wall = time.time() - t0
+    space = {
+        "property_id": PROP, "tier": tier, "seed": 0, "level": "other",
+        "coverage": {
+            "explanation": (
+                "The corpus is the cartesian product of allocation-producing expressions (%d) x handle kinds (%d) x the escape routes that are "
+                "meaningful for the handle kind, plus thread-sending programs (non-Send base allocators) and every settings conversion through the "
+                "six with_settings/borrow(_mut)_with_settings methods and claim(); all programs are safe Rust (#![deny(unsafe_code)]). "
+                "Every must-fail program is decided by rustc itself (borrow checker, trait solver, or const evaluation during monomorphisation) "
+                "and counts only if it is rejected with an error of the expected class attributed to its own source lines; a must-fail program that "
+                "compiles is a violation. Every must-fail program has a control twin differing only in not escaping (use before the escape point, "
+                "or the identity/permitted conversion) that must compile, so a rejection is attributable to the escape; a control that is rejected "
+                "by the borrow checker, trait solver or a const assert is reported as a violation too, any other compile error aborts the run as a machinery error."
+                % (len({c.producer for c in bfail}), len({c.handle for c in bfail}))),
+            "programs": n_fail + n_ctrl, "must_fail": n_fail, "borrowck_fail": len(bfail), "controls": n_ctrl,
+            "const_fail": len(cfail), "trait_fail": len(tfail),
+            "control_only": len([c for c in cases if c.kind in ("control", "constctl")]),
+            "evaluations": n_fail + n_ctrl, "distinct_nontrivial": rep.rejected_ok,
+            "rule": (borrow_cases.__doc__ + " " + trait_cases.__doc__ + " " + const_cases.__doc__).replace("\n", " "),
+            "rejections_by_error": error_histogram(cases),
+            "routes": sorted({c.route for c in cases}), "handles": sorted({c.handle for c in cases}),
+            "producers": sorted({c.producer for c in bfail}),
+            "samples": pick_samples(cases), "exhaustive": True, "rustc_invocations": rc.invocations, "repo": REPO,
+        },
+        "wall_s": round(wall, 2), "violations": len(rep.viols), "floor": 50, "floor_ok": rep.rejected_ok >= 50,
+    }
+    space["coverage"]["rule"] = re.sub(r"\s+", " ", space["coverage"]["rule"])
+    print("SPACE " + json.dumps(space))
+    print("DONE violations=%d" % len(rep.viols))
+    return 0
+
+
+def find_case(cid):
+    for tier in (QUICK, THOROUGH):
+        for c in all_cases(tier):
+            if c.cid == cid:
+                return c
+    raise Machinery("unknown case id %r (see `gen.py list`)" % cid)
+
+
+def cmd_show(args):
+    c = find_case(args.case)
+    print("// case %s  [%s]" % (c.cid, c.params))
+    print("// %s" % c.desc)
+    if c.fail is not None:
+        print("// ---------------- must-fail program ----------------")
+        print(standalone_text(c, "fail"))
+    print("// ---------------- control%s ----------------" % (" twin (must compile)" if c.fail is not None else " only (must compile)"))
+    print(standalone_text(c, "ctrl"))
+    return 0
+
+
+def cmd_replay(args):
+    c = find_case(args.case)
+    rc = Rustc()
+    rc.ensure_dep()
+    rdir = os.path.join(WORK, "replay", re.sub(r"\W", "_", c.cid))
+    shutil.rmtree(rdir, ignore_errors=True)
+    const = c.kind in ("const", "constctl")
+    in_class = {"borrowck": is_borrow_err, "trait": is_trait_err, "const": is_const_err}.get(c.kind)
+    res = {}
+    for which in ("fail", "ctrl"):
+        if which == "fail" and c.fail is None:
+            continue
+        write_file(os.path.join(rdir, which + ".rs"), standalone_text(c, which))
+        res[which] = rc.run(rdir, which + ".rs", "bin" if const else "lib", "obj" if const else "metadata",
+                            "replay_%s_%d" % (which, os.getpid()))
+    msgs = []
+    if "fail" in res:
+        good = [e for e in res["fail"] if in_class(e)]
+        bad = [e for e in res["fail"] if not in_class(e)]
+        if bad:
+            raise Machinery("must-fail program of %s has an unexpected error: %s\n%s" % (c.cid, first_line(bad[0]), bad[0]["rendered"]))
+        if not good:
+            msgs.append("must-fail program compiled without error although the value escapes: " + c.desc)
+    bad = [e for e in res["ctrl"] if not is_rejection(e)]
+    if bad:
+        raise Machinery("control of %s does not compile for a boring reason: %s\n%s" % (c.cid, first_line(bad[0]), bad[0]["rendered"]))
+    if res["ctrl"]:
+        msgs.append("control rejected: the non-escaping twin does not compile: " + first_line(res["ctrl"][0]))
+    if msgs:
+        print("REPLAY VIOLATION step=0 msg=" + " ; ".join(msgs))
+    else:
+        if "fail" in res:
+            print("must-fail program rejected: " + first_line([e for e in res["fail"] if in_class(e)][0]))
+        print("control compiles")
+        print("REPLAY OK")
+    return 0
+
+
+def cmd_list(args):
+    for c in all_cases(args.tier):
+        print("%s\t%s" % (c.cid, c.desc))
+    return 0
+
+
+def main():
+    ap = argparse.ArgumentParser()
+    sub = ap.add_subparsers(dest="cmd", required=True)
+    a = sub.add_parser("check")
+    a.add_argument("--prop", default=PROP)
+    a.add_argument("--tier", default=QUICK, choices=[QUICK, THOROUGH])
+    a.add_argument("--jobs", type=int, default=0)
+    a.add_argument("--secs", default=None)  # accepted and ignored: the corpus is bounded, not timed
+    a = sub.add_parser("replay")
+    a.add_argument("--prop", default=PROP)
+    a.add_argument("--case", required=True)
+    a = sub.add_parser("show")
+    a.add_argument("--prop", default=PROP)
+    a.add_argument("--case", required=True)
+    a = sub.add_parser("list")
+    a.add_argument("--tier", default=QUICK, choices=[QUICK, THOROUGH])
+    args = ap.parse_args()
+    if getattr(args, "prop", PROP) != PROP:
+        print("this engine only serves %s" % PROP, file=sys.stderr)
+        return 2
+    try:
+        return {"check": cmd_check, "replay": cmd_replay, "show": cmd_show, "list": cmd_list}[args.cmd](args)
+    except Machinery as e:
+        print("MACHINERY " + str(e), file=sys.stderr)
+        return 2
+
+
+if __name__ == "__main__":
+    sys.exit(main())
